@@ -346,9 +346,22 @@ Definition expected_server_accept_list_ping : list gstmt :=
 (* server/configuration.go: Configurations.AcceptConfig *)
 Definition expected_server_accept_config : list gstmt :=
   [
-    GWrite "packetid.ClientboundConfigRegistryData" ["pk.NBT(c.Registries)"];
+    GOther "registries := reflect.ValueOf(&c.Registries).Elem()";
+    GFor "i := 0; i < registries.NumField(); i++" [
+    GOther "id,ok := registries.Type().Field(i).Tag.Lookup('registry')";
+    GIf "!ok" [
+      GBranch "continue" ] [];
+    GWrite "packetid.ClientboundConfigRegistryData" ["pk.Identifier(id)"; "registries.Field(i).Addr().Interface().(pk.FieldEncoder)"];
     GIf "err != nil" [
-  GReturn "err" ] [];
+      GReturn "err" ] [] ];
     GWrite "packetid.ClientboundConfigFinishConfiguration" [];
-    GReturn "err" ].
+    GIf "err != nil" [
+    GReturn "err" ] [];
+    GLoop [
+    GOther "var p pk.Packet";
+    GRead;
+    GIf "err != nil" [
+      GReturn "err" ] [];
+    GIf "packetid.ServerboundPacketID(p.ID) == packetid.ServerboundConfigFinishConfiguration" [
+      GReturn "nil" ] [] ] ].
 
